@@ -102,6 +102,10 @@ def verify_function(prog, db, q, contract, case=None):
                 env[k2] = make_param(ex, st, eval_type(v), k2)
         st.env = env
         fr.params = dict(env)
+        for cl in contract.of('modifies'):
+            for a in cl.args:
+                if isinstance(a, ast.Name) and isinstance(env.get(a.id), Ref):
+                    ex.frame_roots.pop(env[a.id].oid, None)
         for cl in contract.of('requires'):
             for a in cl.args:
                 st.assume(ex.truth(ex.evs(a, st), st))
@@ -133,15 +137,35 @@ def verify_function(prog, db, q, contract, case=None):
                         s.pc[:] = loc.pc
                         ex.oblige(s, 'post', g, a, text='ensures ' + ast.unparse(a)[:140])
                         s.assume(g)      # cut: later obligations of this path may use an ensures clause that has its own obligation
+                for cl in contract.of('establishes'):
+                    for k2, a in cl.kw.items():
+                        want = ex.evs(a, loc)
+                        have = ex.getattr_(loc.env['self'], k2, loc)
+                        g = ex.truth(ex.np.builtins['defines']([have, want], {}, loc, a), loc)
+                        ex.oblige(s, 'post', g, a, text='establishes self.%s == %s' % (k2, ast.unparse(a)[:120]))
+                        s.assume(g)
                 for exc, cl in raises.items():
                     if 'when' in cl.kw:
                         g = NOT(ex.truth(ex.evs(cl.kw['when'], loc), loc))
                         s.pc[:] = loc.pc
                         ex.oblige(s, 'post:no-%s' % exc, g, cl.kw['when'], text='normal return only when not (%s)' % ast.unparse(cl.kw['when'])[:120])
+                for cl in contract.of('functional'):
+                    comp = ex.evs(cl.args[0], loc)
+                    ex.oblige(s, 'deterministic', deterministic(ex, s, comp), fi.node, text='result is a function of the arguments: no generator state or entropy is read')
                 for cl in contract.of('fresh'):
-                    check_fresh(ex, s, v, fi.node)
+                    for a in cl.args:
+                        if isinstance(a, ast.Name) and a.id == 'result':
+                            check_fresh(ex, s, v, fi.node)
+                        elif isinstance(a, ast.Attribute) and isinstance(a.value, ast.Name) and a.value.id in ('self', 'result'):
+                            owner = pre['env'].get('self') if a.value.id == 'self' else v
+                            src = s.ghost.get('attr_src', {}).get((owner.oid, a.attr)) if isinstance(owner, Ref) else None
+                            if src is None:
+                                ex.oblige(s, 'fresh:%s.%s' % (a.value.id, a.attr), False, fi.node, text='%s.%s is assigned a fresh object' % (a.value.id, a.attr))
+                            else:
+                                ok = src.origin == 'fresh' and src.oid not in ex.frame_roots
+                                ex.oblige(s, 'fresh:%s.%s' % (a.value.id, a.attr), ok, fi.node,
+                                          text='%s.%s shares no storage with arguments (%s)' % (a.value.id, a.attr, src.note or src.origin))
             else:
-                ex.oblige(s, 'cover:raise', False, fi.node, text='raise path reachable', expect='sat') if v in raises else None
                 if v in raises:
                     cl = raises[v]
                     if 'when' in cl.kw:
@@ -153,6 +177,10 @@ def verify_function(prog, db, q, contract, case=None):
                     ex.oblige(s, 'no-other-exception', False, fi.node, text='no %s outside the contract' % v)
     except Unsupported as u:
         fr.degraded = str(u)
+        import os
+        if os.environ.get('VK_TRACE'):
+            import traceback
+            traceback.print_exc()
     except PyRaise as r:
         fr.degraded = 'uncaught model exception %s' % r.exc
     except z3.Z3Exception as e:
@@ -204,3 +232,44 @@ def check_fresh(ex, s, v, node):
             for k, y in enumerate(x):
                 one(y, '%s[%d]' % (what, k))
     one(v, 'result')
+
+
+def deterministic(ex, s, v):
+    """no constant of the RngState sort (global state G0, entropy, havoc) occurs in the value"""
+    from .npmodel2 import free_consts
+    from .rng_rules import ST
+    terms = []
+
+    def collect(x):
+        x = s.deref(x) if isinstance(x, Ref) else x
+        if is_z3(x):
+            terms.append(x)
+        elif isinstance(x, tuple):
+            for y in x:
+                collect(y)
+        elif isinstance(x, SArr):
+            vs = [bvar('d') for _ in x.shape]
+            terms.extend([t for t in x.shape if is_z3(t)])
+            try:
+                terms.append(Z(num(x.get(*vs))))
+            except Unsupported:
+                pass
+        elif isinstance(x, SList):
+            k = bvar('d')
+            if is_z3(x.n):
+                terms.append(x.n)
+            collect(x.get(k))
+        elif isinstance(x, SSet):
+            e = set_elem_var(x)
+            m = x.member(e)
+            if is_z3(m):
+                terms.append(m)
+        elif isinstance(x, SObj):
+            for y in x.attrs.values():
+                collect(y)
+    collect(v)
+    for t in terms:
+        for c in free_consts(t):
+            if c.sort() == ST:
+                return False
+    return True
